@@ -10,7 +10,10 @@ func main() {
 	r.Rule("a case is one seeded shape (exact dyadic/axis-aligned or random tilted, needle/flat aspect ratios, scales 1e-2..1e2) with 8-60 hostile queries (bounding box, near boundary over 12 decades, exactly on the boundary, symmetry axes/centres/apex/rims and nudges of those, far away); each query is decided against a closed-form or exhaustive reference written without the library's vector/shape code; a case is non-trivial if its queries reached >= 2 different nearest boundary pieces; distinct by hash of the shape parameters")
 	r.Assume("IEEE double rounding: distances are compared with relative 1e-6 + absolute 1e-9*(shape extent + coordinate magnitude); sign/Contains are undecided within twice that tolerance of the boundary")
 	r.Assume("the outward-normal clause is decided only where the reference nearest point stays on one smooth boundary piece for 14 probes at 1e-3*feature around the query and the closed-form reference normal agrees with -grad(reference distance) by central differences")
-	r.Assume("Cone: inside the needle zone within 1e-5 rad of the axis (seen from Base) the coded safeNormal fallback is granted 2*rho extra tolerance")
+	r.Assume("Cone: inside the zone within 3e-5 rad of the axis (seen from Base) the distance error caused by the safeNormal fallback is reported once, under model3d.Cone.SDF/distance-near-axis (FINDINGS.md F2); the other clauses there and every field derived from a cone are granted 2*rho")
+	r.Assume("derived fields (ColliderToSDF, TransformSDF, Profile*SDF) are decided only at queries where the library's base field agrees with the base reference, so a defect of a primitive is reported under the primitive's keys only")
+	r.Assume("mesh sign: decided only for closed consistently oriented meshes (independent topology oracle), at more than 1e-7*size from the surface, where the generalised winding number is integral to 1e-4 and an independently cast ray in the library's fixed parity direction clears every edge by 1e-7 (barycentric); open triangle soups get the distance, nearest-point, face and |SDF|-Lipschitz clauses only")
+	r.Assume("mesh inputs built by the library (icosphere, marching cubes/squares of the monitor's own solids) are inputs only; every oracle runs on their raw face lists")
 	r.Assume("TransformSDF: the image of the shape is defined through the transform's own Apply (its laws are C05); translate/scale chains are also compared with an own model")
 
 	selfTest(r)
@@ -25,5 +28,77 @@ func main() {
 	meshes2(r)
 	profiles(r)
 
+	requires(r)
 	r.Finish()
+}
+
+// requires lists the observations every claimed clause depends on; a run in
+// which one of them saw (almost) nothing is inconclusive, not "held".
+func requires(r *vlib.Run) {
+	q := int64(r.N(1, 10))
+	for _, t := range []string{"Sphere", "Rect", "Capsule", "Cylinder", "Cone", "Torus", "2d.Circle", "2d.Rect", "2d.Capsule", "2d.Triangle"} {
+		r.Require(t+".SDF.distance_ok", 20000*q)
+		r.Require(t+".SDF.sign_ok", 10000*q)
+		r.Require(t+".Contains.agrees", 10000*q)
+		r.Require(t+".PointSDF.on_boundary_ok", 20000*q)
+		r.Require(t+".PointSDF.at_distance_ok", 20000*q)
+		r.Require(t+".NormalSDF.unit_ok", 20000*q)
+		r.Require(t+".NormalSDF.outward_decided", 3000*q)
+		r.Require(t+".SDF.lipschitz_pairs_ok", 20000*q)
+		r.Require(t+".SDF.boundary_samples_ok", 20000*q)
+		r.Require(t+".queries.special", 3000*q)
+	}
+	// every smooth piece of the piecewise shapes reached by the normal clause
+	for _, k := range []string{"Cone.NormalSDF.outward_decided.slant", "Cone.NormalSDF.outward_decided.base",
+		"Cylinder.NormalSDF.outward_decided.side", "Cylinder.NormalSDF.outward_decided.cap1", "Cylinder.NormalSDF.outward_decided.cap2",
+		"Capsule.NormalSDF.outward_decided.side", "Capsule.NormalSDF.outward_decided.cap1", "Torus.NormalSDF.outward_decided.surface",
+		"2d.Triangle.NormalSDF.outward_decided.edge", "2d.Capsule.NormalSDF.outward_decided.side"} {
+		r.Require(k, 300*q)
+	}
+	// degenerate centres / symmetry axes actually visited
+	for _, k := range []string{"Sphere.region.centre", "Capsule.region.core", "Torus.region.axis", "Torus.region.ring", "Cone.region.apex", "Cone.region.rim", "Cylinder.region.rim", "Rect.region.edge", "Rect.region.corner", "2d.Circle.region.centre"} {
+		r.Require(k, 50*q)
+	}
+	r.Require("2d.Triangle.BarycentricSDF.nearest_ok", 20000*q)
+	for _, m := range []string{"mesh3d", "mesh2d"} {
+		r.Require(m+".SDF.distance_ok", 20000*q)
+		r.Require(m+".SDF.sign_ok", 5000*q)
+		r.Require(m+".SDF.sign_ok_inside", 1000*q)
+		r.Require(m+".PointSDF.ok", 20000*q)
+		r.Require(m+".FaceSDF.ok", 20000*q)
+		r.Require(m+".NormalSDF.unit_ok", 20000*q)
+		r.Require(m+".NormalSDF.face_normal_ok", 5000*q)
+		r.Require(m+".NormalSDF.outward_ok", 2000*q)
+		r.Require(m+".SDF.lipschitz_pairs_ok", 5000*q)
+		r.Require(m+".queries.far", 2000*q)
+		r.Require(m+".ColliderToSDF.distance_ok", 2000*q)
+		r.Require(m+".ColliderToSDF.sign_ok", 1000*q)
+		r.Require(m+".kind.soup", 50*q)
+	}
+	r.Require("mesh3d.kind.nested-shells", 50*q)
+	r.Require("mesh3d.kind.marching-cubes", 50*q)
+	r.Require("mesh2d.kind.nested-loops", 50*q)
+	r.Require("Triangle.Dist.ok", 100000*q)
+	r.Require("Triangle.Closest.ok", 100000*q)
+	r.Require("Segment3.ok", 100000*q)
+	r.Require("Segment2.ok", 20000*q)
+	for _, t := range []string{"ProfileSDF", "ProfilePointSDF"} {
+		r.Require(t+".SDF.distance_ok", 20000*q)
+		r.Require(t+".SDF.sign_ok", 10000*q)
+		r.Require(t+".SDF.lipschitz_pairs_ok", 20000*q)
+	}
+	r.Require("ProfilePointSDF.PointSDF.on_boundary_ok", 20000*q)
+	r.Require("ProfilePointSDF.PointSDF.at_distance_ok", 20000*q)
+	r.Require("ColliderToSDF.fields", 1000*q)
+	r.Require("2d.ColliderToSDF.fields", 1000*q)
+	r.Require("TransformSDF.fields", 1000*q)
+	r.Require("2d.TransformSDF.fields", 1000*q)
+	for _, p := range []string{"Sphere", "Rect", "Capsule", "Cylinder", "Cone", "Torus"} {
+		r.Require("ColliderToSDF."+p+".SDF.distance_ok", 1000*q)
+		r.Require("ColliderToSDF."+p+".SDF.sign_ok", 500*q)
+	}
+	for _, t := range []string{"Translate", "Scale", "Rotation", "Joined[Scale,Translate]", "Joined[Translate,Rotation,Scale]"} {
+		r.Require("TransformSDF."+t+".SDF.distance_ok", 2000*q)
+		r.Require("2d.TransformSDF."+t+".SDF.distance_ok", 2000*q)
+	}
 }
